@@ -118,6 +118,14 @@ fn xlsb_ptgarea_absolute() {
 #[kani::unwind(12)]
 fn xlsb_ptgfunc_iftab_total() {
     let rgce = [0x21u8, 0xE5, 0x01]; // iftab = 485 = FTAB_LEN (a symbolic iftab did not finish)
+    let r = parse_formula(&rgce, &[], &[]);
+    assert!(r.is_err());
+}
+/// C06: PtgFuncVar (0x22) with an iftab outside the table must not panic (fails: FTAB[iftab] is indexed unchecked)
+#[kani::proof]
+#[kani::unwind(12)]
+fn xlsb_ptgfuncvar_iftab_total() {
+    let rgce = [0x22u8, 0, 0xE5, 0x01];
     let _ = parse_formula(&rgce, &[], &[]);
 }
 #[kani::proof]
